@@ -40,6 +40,7 @@ type script struct {
 	Inputs    [][]int      `json:"inputs"` // per id 1..N (Byzantine ids: ignored)
 	Lookahead uint64       `json:"lookahead"`
 	Continue  bool         `json:"continue"` // after the script: deliver everything, timely network, until all decide
+	Sync      bool         `json:"sync"`     // the script is "asynchronous prefix, then stabilisation" (MCGPBFTSync.tla): the run counts as a C06 run
 	Steps     []scriptStep `json:"steps"`
 }
 
@@ -222,6 +223,15 @@ func (w *world) runScript(sc script) {
 			w.skipped++
 		}
 	}
+	if sc.Sync {
+		// the tail after the script is a stabilised network with silent faulty members: the run is judged like every other C06 run
+		w.sc.GST = time.Millisecond
+		w.gstPassed = true
+		for _, id := range w.honest {
+			w.gstRounds[id] = w.parts[id].Progress().Round
+		}
+	}
+	reason := "done"
 	if sc.Continue {
 		// timely network from here on: everything honest participants ever sent is delivered, alarms fire when due
 		for _, id := range w.honest {
@@ -242,7 +252,14 @@ func (w *world) runScript(sc script) {
 			}
 		}
 		steps := 0
-		for steps < w.sc.MaxSteps && w.step() {
+		for {
+			if steps >= w.sc.MaxSteps {
+				reason = "maxsteps"
+				break
+			}
+			if !w.step() {
+				break
+			}
 			steps++
 			over := false
 			for _, id := range w.honest {
@@ -251,11 +268,19 @@ func (w *world) runScript(sc script) {
 				}
 			}
 			if over {
+				reason = "maxround"
 				break
 			}
 		}
 	}
-	w.end(fmt.Sprintf("script skipped=%d", w.skipped))
+	if reason == "done" {
+		for _, id := range w.honest {
+			if !w.hosts[id].done {
+				reason = "drained"
+			}
+		}
+	}
+	w.end(reason)
 }
 
 // TestConsensusScripts: VERIF_SCRIPTS = JSON file with a list of scripts, VERIF_OUTDIR = directory for the traces
@@ -282,7 +307,7 @@ func TestConsensusScripts(t *testing.T) {
 	var keys []string
 	for k, s := range scripts {
 		sc := scenario{Name: fmt.Sprintf("%s-%s", tag, s.Name), Powers: s.Powers, Byz: s.Byz, Inputs: s.Inputs, Instances: 1, MaxSteps: envInt("VERIF_MAXSTEPS", 3000),
-			MaxRound: 8, Lookahead: s.Lookahead, Adversary: "script"}
+			MaxRound: 40, Lookahead: s.Lookahead, Adversary: "script"}
 		sort.Ints(sc.Byz)
 		w := newWorld(sc, int64(k)+1)
 		w.runScript(s)
